@@ -246,9 +246,10 @@ Section MON.
                                    && before (e_ret k2) (e_start k)
                                    && negb (read_before rs p (Z.eqb (emit_ev k2)))) (seq 0 nemits)
              then 7                                          (* overtook / skipped an earlier event *)
-        else if fresh s k && replay_due s (emit_ty k)
+        else if none_or_after (k_start s) p && fresh s k && replay_due s (emit_ty k)
                 && negb (read_before rs p (fun v' => (ev_ty v' =? emit_ty k) && ev_nonfresh s v'))
-             then 8                                          (* a later event arrived before the retained one *)
+             then 8                                          (* a later event arrived before the retained one (judged only
+                                                                before Close starts: afterwards the drainer may have taken it) *)
         else 0
     end.
 
